@@ -64,6 +64,11 @@ THEOREMS = [
 ]
 _LEXSHIFT = os.path.join(core.LEAN, "PV", "C09", "LexShift.lean")     # lexer model builder; imported by PV/C09/Thm.lean
 THEOREMS += ["PV.C09.lex_shift", "PV.C09.lex_shift_of_fit", "PV.C09.lexRaw_shift", "PV.C09.softKwGo_shift"]
+# end to end on the models: lexer model + reference parser for programs (range-erased trees), and the RANGED expression
+# parser PV.C02.parseR commutes with a shift of the span table (lean/PV/C09/RShift.lean, induction over its 48 functions)
+THEOREMS += ["PV.C09.lex_parse_shift_model", "PV.C09.parseRTest_shift", "PV.C09.parseRTop_shift", "PV.C09.parseR_shift",
+             "PV.C09.parseRExpression_shift", "PV.C09.lex_parseR_shift_model", "PV.C09.erase_shE", "PV.C09.range_shE",
+             "PV.C09.shiftAt", "PV.C09.lexSpansGo_length"]
 
 TRUSTED = [
     "Lean 4.33.0 kernel; axioms limited to propext, Classical.choice, Quot.sound",
@@ -99,8 +104,17 @@ PARTIAL = [
     "lexer that counts from k) because both sides are clamped; unconditional at offset 0 (typed_parse_views_of_free_parse)",
     "lexer-level translation is PV.C09.lex_shift (lean/PV/C09/LexShift.lean, on the lexer MODEL of PV/Lexer, whose tie to lexer.rs "
     "is the C05 correspondence): lex k src = shift k (lex 0 src) provided the end offset fits u32; in the entry-point model it "
-    "is the hypothesis ShiftEnv.lex (the two models are not yet composed into one term), and the real lexer is checked "
-    "against the shift relation directly by the `lexes` streams",
+    "is the hypothesis ShiftEnv.lex, and the real lexer is checked against the shift relation directly by the `lexes` "
+    "streams. COMPOSED at model level (section 4 of Thm.lean): lex_parse_shift_model — PV.Pipeline.parseText (lexer model, "
+    "filter, any position-blind token conversion, reference parser PV.Prog.parseProgram) at start offset k answers what it "
+    "answers at 0 (EQUAL range-erased tree, same rejection, lexical error offset moved by k), given that the end offset fits "
+    "u32; parseR_shift / parseRExpression_shift — the RANGED expression parser PV.C02.parseR (48 functions incl. the f-string "
+    "sub-parser with its per-field span table) on tokens whose spans are moved by k returns the tree with EVERY range moved "
+    "by k and nothing else changed (erase_shE), same rest, same rejections; lex_parseR_shift_model — the ranged tree of an "
+    "expression lexed at offset k is the ranged tree at 0 shifted by k. Remaining at model level: ranged STATEMENTS (the same "
+    "lemma shape extends to PV.C02's ranged program parser once its functions are walked the same way), the Mod node range / "
+    "marker of the entry-point model (entry_shift_*), and error offsets of a rejecting parser (PV.Prog and PV.C02.parseR are "
+    "recognisers: a rejection carries no position)",
     "that the real LALRPOP parser is translation-equivariant (ShiftEnv.parse), the f-string sub-parser's absolute offsets "
     "(string.rs parse_fstring_expr), and the cross-mode facts (expression-mode tree = value of the module's expression "
     "statement, interactive body = module body) are differential checks on the real code, not theorems",
